@@ -17,7 +17,8 @@ TEXT = {
                       "`_storage[i/8] |= 1 << i%8`, `_storage[i/8] &= ~(1 << i%8)` — one unit, one-bit mask from the same index — and write nothing else",
     "C18.whole": "BitArrayT::set / clear / empty / operator!= / operator& / operator&= visit every unit (range-for over _storage or i < UNIT_COUNT) with the "
                  "canonical body and contain no other statement",
-    "C18.views": "Bits / CBits::operator bool test _width/8 full units and the tail `_storage[_width/8] & ((1 << _width%8) - 1)`",
+    "C18.views": "Bits / CBits::operator bool test _width/8 full units and the tail `_storage[_width/8] & ((1 << _width%8) - 1)`; Bits::clear() visits "
+                 "exactly ceil(_width/8) units; bits() / cbits() return {_storage + unit, width}",
     "C18.stream": "BitWriteStreamT::write and BitReadStreamT::read share the cursor atoms (byteIndex = _cursor >> 3, start = _cursor & 7, chunk = min(8 - start, "
                   "remaining), _cursor += chunk, remaining -= chunk); the written byte is |= value << start, the read chunk is (byte >> start) & ((1 << chunk) - 1) "
                   "placed at the running item offset; no local derived from _cursor is narrower than _cursor",
@@ -160,7 +161,19 @@ def check(ctx, F):
     check_single(ctx, F)
     check_whole(ctx, F)
     check_views(ctx, F)
+    from . import C11, C08
+    C11.check_views(ctx, F, rule="C18.views")          # Bits::clear() covers exactly ceil(_width / 8) units; bits()/cbits() address {unit, width}
     check_stream(ctx, F)
+    # the writer ORs chunks into the buffer: what is read back equals what was written only if it starts from a cleared buffer on every path
+    for fid, b in F.bodies.items():
+        if b["inst"] and b.get("cls") == "BitWriteStreamT" and b.get("kind") == "ctor" and not any(c in (b.get("sig") or "") for c in ("const BitWriteStreamT", "BitWriteStreamT &&")):
+            if len(b.get("params", [])) < 1:
+                continue
+            site = "BitWriteStreamT::BitWriteStreamT/clear"
+            ctx.instance("C18.stream", site, {"function": site, "loc": F.floc(fid)})
+            if not C08.clears_on_every_path(F, fid, "_buffer"):
+                ctx.violation("C18.stream", site, "BitWriteStreamT::BitWriteStreamT (%s)" % F.floc(fid),
+                              "write() ORs chunks into the buffer but the constructor does not clear it on every path: values read back merge with stale bits", {})
     check_compare(ctx, F)
 
 
